@@ -255,7 +255,8 @@ def install(ctx, repo, probes):
                           "differently" % (slot[1], R.dur_key(a)))
     probes.wrap(Dur, "__hash__", post_hash)
     ctx.target("respelled-equal", "nominal-vs-exact", "week-form",
-               "mixed-sign", "decimal")
+               "mixed-sign", "decimal", "derived-operand/to_weeks",
+               "derived-operand/to_days")
     for mode in R.MODES:
         ctx.target("order/" + mode)
 
@@ -266,6 +267,33 @@ def run_case(ctx, repo, case):
     try:
         ds = [repo.dur(kw) for kw in case["durs"]]
         Dur = repo.Duration
+        # the object must denote what the keywords spell (a week is 7 days,
+        # whatever else is given beside it)
+        for kw, d in zip(case["durs"], ds):
+            ctx.ev("ctor.check")
+            want = (kw.get("years", 0), kw.get("months", 0),
+                    sum(F(kw.get(u, 0)) * k for u, k in (
+                        ("weeks", 604800), ("days", 86400), ("hours", 3600),
+                        ("minutes", 60), ("seconds", 1))))
+            got = tuple(R.dur_nominal(d)) + (R.dur_len(d),)
+            if got[:2] != want[:2] or abs(got[2] - want[2]) > F(1, 10 ** 6) \
+                    or (integral(d) and got[2] != want[2]):
+                ctx.violation("ctor.length", "Duration(**%r) denotes %r, the "
+                              "keywords spell %r" % (kw, got, want))
+        # operands that come out of conversions / arithmetic, not only from
+        # the constructor
+        for i, how in (case.get("derive") or {}).items():
+            i = int(i)
+            if i < len(ds):
+                d = ds[i]
+                ds[i] = {"to_weeks": lambda: d.to_weeks()
+                         if d._weeks is None and not (d._years or d._months)
+                         else d,
+                         "to_days": lambda: d.to_days(),
+                         "x1": lambda: d * 1, "abs": lambda: abs(d),
+                         "neg-neg": lambda: -1 * (-1 * d),
+                         "+0": lambda: d + Dur()}[how]()
+                ctx.cls("derived-operand/" + how)
         empty = Dur()
         ex = all(integral(d) for d in ds)
 
@@ -356,6 +384,12 @@ RESPELLED = [
      {"hours": 720}],
     [{"years": 1, "days": 1}, {"years": 1, "hours": 24},
      {"days": 366}, {"months": 12, "days": 1}],
+    [{"weeks": 1, "days": 1, "hours": -1}, {"days": 8, "hours": -1},
+     {"hours": 191}, {"weeks": 1, "hours": 23}],
+    [{"weeks": 5, "months": 1, "days": -1}, {"months": 1, "days": 34},
+     {"months": 1, "weeks": 4, "hours": 144}],
+    [{"weeks": 2, "minutes": 30, "seconds": -1800}, {"weeks": 2},
+     {"days": 14}, {"weeks": 2, "days": 0}],
 ]
 
 
@@ -395,6 +429,15 @@ def workload(ctx, repo):
                              "seconds": total})
         case = {"op": "laws", "mode": mode, "durs": durs,
                 "n": rng.randint(-6, 6)}
+        if k % 3 == 1:
+            case["derive"] = {str(rng.randrange(len(durs))): rng.choice(
+                ("to_weeks", "to_weeks", "to_days", "x1", "abs", "neg-neg",
+                 "+0"))}
+        if k % 7 == 2:
+            # the weeks keyword beside other units (either sign)
+            j = rng.randrange(len(durs))
+            if "weeks" not in durs[j]:
+                durs[j] = dict(durs[j], weeks=rng.choice((1, -1, 2, 5, -3)))
         ctx.case = case
         if k % 307 == 0:
             ctx.sample(case)
